@@ -10,3 +10,7 @@ import Norad.Props.C04
 #print axioms RT.font_roundtrip
 #print axioms RT.loaded_is_representable
 #print axioms RT.load_save_load_fixed_point
+#print axioms RT.source_absent_reads_match_model
+#print axioms RT.model_absent_files_read_as_empty
+#print axioms RT.source_absent_files_read_as_empty
+#print axioms RT.source_gates_match_defaults
